@@ -3,15 +3,15 @@ ID = "C18"
 LEVEL = "exploration"
 LEVEL_TEXT = (
     "PROVED (z3; any configuration): stable_hash_cfg is stable_hash(json.dumps(self.serialize())) - a function of the serialized content only - and to_fname is "
-    "sanitize_fname(name '-g' grid_n '-n' shorten(n_mazes) '-a_' generator-name-without-gen_ '-h' (that hash mod 10^5)) (library functions uninterpreted); GPTDatasetConfig.__post_init__ keeps every seed except None (0 included) and the other fields. Everything else is bounded: "
+    "sanitize_fname(name '-g' grid_n '-n' shorten(n_mazes) '-a_' generator-name-without-gen_ '-h' (that hash mod 10^5)) (library functions uninterpreted); GPTDatasetConfig.__post_init__ keeps every seed except None (0 included) and the other fields; _load_maze_ctor returns the registered generator of the stored __name__ (dict form) or of the bare name (string form) for any generator table; the serializer and loader lambdas of the three fields maze_ctor / maze_ctor_kwargs / endpoint_kwargs (stored as they are, every key kept); the three field loaders written as lambdas in the field declarations (read as def f(data): return <expression>) return the registered generator of the stored name (the serializer lambda stores the generator's own __name__ and __module__), the stored generator arguments unchanged, and the stored endpoint options with every coordinate list restored as a list of tuples in order (absent / None entries give the empty dict). Everything else is bounded: "
     + 'Bounded: serialize/load (also through JSON text) over a cross product of generators, kwargs, endpoint options, seeds and filter lists; hashes pairwise distinct for single-field differences, equal across 3 hash seeds; file name against the documented format.'
 )
 LEVEL_NOTE = "Trusted: muutils field walk (serialize/load), sha256 collision freedom, json.dumps / stable_hash / sanitize_fname / shorten_numerical_to_str as pure functions."
-TECHNIQUE = "bounded run-time checking of the real code over an enumerated cross product (round trips, pairwise discrimination, hash seeds) + contracts on the two identity functions discharged by z3"
+TECHNIQUE = "bounded run-time checking of the real code over an enumerated cross product (round trips, pairwise discrimination, hash seeds) + contracts on the two identity functions, the seed-keeping constructor hook and the generator lookup discharged by z3"
 CONTRACT_MODULES = ["contracts.configs"]
 MD = "maze_dataset/dataset/maze_dataset.py"
-PROVE = [(MD, "MazeDatasetConfig.stable_hash_cfg"), (MD, "MazeDatasetConfig.to_fname"), ("maze_dataset/dataset/dataset.py", "GPTDatasetConfig.__post_init__")]
-ASSUMPTIONS = []
+PROVE = [(MD, "MazeDatasetConfig.stable_hash_cfg"), (MD, "MazeDatasetConfig.to_fname"), (MD, "_load_maze_ctor"), (MD, "MazeDatasetConfig.maze_ctor@serialization_fn"), (MD, "MazeDatasetConfig.maze_ctor@loading_fn"), (MD, "MazeDatasetConfig.maze_ctor_kwargs@serialization_fn"), (MD, "MazeDatasetConfig.maze_ctor_kwargs@loading_fn"), (MD, "MazeDatasetConfig.endpoint_kwargs@serialization_fn"), (MD, "MazeDatasetConfig.endpoint_kwargs@loading_fn"), ("maze_dataset/dataset/dataset.py", "GPTDatasetConfig.__post_init__")]
+ASSUMPTIONS = ["A-pairs: a stored endpoint coordinate is a sequence of two integers (typed as a pair)", "the stored generator name is a key of GENERATORS_MAP (otherwise the lookup raises KeyError and nothing is returned)", "muutils calls each field's loading_fn lambda with the serialized dict (trusted; exercised by the bounded round trips)"]
 EXPLANATION = "see DESIGN.md C18"
 
 
